@@ -3,6 +3,7 @@ package message
 import (
 	"encoding/binary"
 
+	"github.com/free5gc/ike/internal/verifhook"
 	"github.com/pkg/errors"
 )
 
@@ -100,6 +101,7 @@ func (container *IKEPayloadContainer) Encode() ([]byte, error) {
 
 func (container *IKEPayloadContainer) Decode(nextPayload uint8, b []byte) error {
 	for len(b) > 0 {
+		verifhook.At("message.container.decode", len(b))
 		// bounds checking
 		if len(b) < 4 {
 			return errors.Errorf("DecodePayload(): No sufficient bytes to decode next payload")
